@@ -7,7 +7,7 @@ from hypothesis import strategies as st
 
 from .. import astutil, oracle
 from ..core import Case, make_preds, run_optimize, sigs_of
-from ..gen import config, rename
+from ..gen import config, rename, templates
 from ..semantic import Outcome, attribute
 from . import c01, common
 
@@ -26,6 +26,13 @@ RULE = (
     "non-trivial = a pass fired AND the result contains a statement that is not in the trait-off normal form; distinct = distinct (program, configuration) hash."
 )
 ASSUMPTIONS = common.BASE_ASSUMPTIONS
+
+
+SYNTH = [
+    (templates.sum_chains_program, "sum_chains"), (templates.sum_chains_program, "sum_chains"), (templates.minmax_chains_program, "minmax_chains"), (templates.minmax_chains_program, "minmax_chains"),
+    (templates.inline_program, "inline"), (templates.math_program, "math"), (templates.duplication_program, "duplication"), (templates.projection_program, "projection"),
+    (templates.symmetry_program, "symmetry"), (templates.unused_program, "unused"), (templates.normalize_program, "cleanup"),
+]
 
 
 def budget(tier: str) -> int:
@@ -47,7 +54,14 @@ def corpus_strategy(draw: Any, item: dict, tier: str) -> Any:
 @st.composite
 def strategy(draw: Any, tier: str) -> Any:
     """C01's generator, sometimes with adversarial variable names"""
-    case = draw(c01.strategy(tier))
+    if draw(st.integers(0, 9)) < 5:
+        # passes that synthesise terms, tuples and variables, with that pass enabled
+        fn, trait = draw(st.sampled_from(SYNTH))
+        src, name = fn(draw)
+        traits = sorted(set(config.trait_subset(draw)) | {trait})
+        case = common.build_case(draw, src, "template:" + name, tier, traits, decl="free", count=3)
+    else:
+        case = draw(c01.strategy(tier))
     if draw(st.integers(0, 9)) < 3:
         new = rename.rename_variables(draw, case.src)
         if new != case.src and oracle.grounds_guarded(new) == "ok":
